@@ -5,7 +5,7 @@
    tied to the implementation by the correspondence run. *)
 From Coq Require Import ZArith QArith List.
 From PV Require Import Lib.Py Model.Ops Model.Arrays Proofs.C13.
-From PV Require Import Model.CseCells Proofs.C13Cells.
+From PV Require Import Model.CseCells Proofs.C13Cells Proofs.C13Ranges.
 From PV Require Gen.excelutil Gen.arrayfit.
 Import ListNotations.
 Open Scope Z_scope.
@@ -238,13 +238,17 @@ Theorem C13_range_formula_inner : forall f i j h w row rest,
 Proof. exact range_formula_inner. Qed.
 Print Assumptions C13_range_formula_inner.
 
-(* PARTIAL: evaluating the reference range gives at every position what the
-   member cell there shows (a blank as 0 in the cell).  The full statement —
-   EVERY range of the sheet shows its cells' own values — is refuted:
-   Refuted/C13_adjacent_ranges.v (a range running from one array formula's top
-   left into an adjacent array formula with the same text is evaluated as ONE
-   array formula) *)
-Theorem C13_range_shows_members_partial : forall f rows C h w,
+(* a range reaching beyond the array formula of its top left cell has no formula
+   of its own either (repair 50c2e69): it is evaluated cell by cell *)
+Theorem C13_range_formula_larger : forall f i j h w row rest,
+  h < zlen ((Member f (i, j, h, w) :: row) :: rest) \/ w < zlen (Member f (i, j, h, w) :: row) ->
+  range_formula ((Member f (i, j, h, w) :: row) :: rest) = None.
+Proof. exact range_formula_larger. Qed.
+Print Assumptions C13_range_formula_larger.
+
+(* evaluating the reference range gives at every position what the member cell
+   there shows (a blank as 0 in the cell) *)
+Theorem C13_range_shows_members : forall f rows C h w,
   rows <> [] -> (1 <= C)%nat -> rectangular C rows -> all_scalar rows -> 1 <= h -> 1 <= w ->
   range_formula (sheet_rows f h w) = Some f /\
   exists out M, cse_range_value h w (matrix rows) = Ok (matrix out)
@@ -252,8 +256,35 @@ Theorem C13_range_shows_members_partial : forall f rows C h w,
                 /\ length M = Z.to_nat h /\ rectangular (Z.to_nat w) M
                 /\ forall i j, (i < Z.to_nat h)%nat -> (j < Z.to_nat w)%nat ->
                      exists e, elem2 out i j = Some e /\ elem2 M i j = Some (blank0 e).
-Proof. exact range_shows_members_partial. Qed.
-Print Assumptions C13_range_shows_members_partial.
+Proof. exact range_shows_members. Qed.
+Print Assumptions C13_range_shows_members.
+
+(* ---- EVERY range of the sheet (the full statement; was _partial before repair
+   50c2e69).  [sh] = the sheet by (row, column): members of array formulas or
+   other cells; coherent = every member belongs to a complete array formula
+   (same text and size over its whole reference range, each cell its own
+   offset — C13_sheet_of_coherent: what load_array_formulas writes for reference
+   ranges that do not overlap); [fv text] = what the array formula's code returns,
+   a scalar or a non-empty rectangular array of scalars ([rowsf text] its rows);
+   [plain row col] = what any other cell shows.  ANY rectangle nr x nc >= 1 x 1
+   with any top left evaluates (sheet_range_value = _evaluate_range over
+   range_formula) to an nr x nc matrix, and at each position the cell there
+   shows that element — itself, or as 0 when the range has the array formula
+   of its own and the element is blank *)
+Theorem C13_range_shows_cells : forall sh fv rowsf plain r0 c0 nr nc,
+  coherent sh -> results_ok sh fv rowsf -> (1 <= nr)%nat -> (1 <= nc)%nat ->
+  exists V, sheet_range_value sh fv plain r0 c0 nr nc = Ok (matrix V)
+            /\ length V = nr /\ rectangular nc V
+            /\ forall p q, (p < nr)%nat -> (q < nc)%nat ->
+                 exists e y, elem2 V p q = Some e
+                             /\ cell_shows sh fv plain (r0 + Z.of_nat p) (c0 + Z.of_nat q) = Ok y
+                             /\ (y = e \/ y = blank0 e).
+Proof. exact range_shows_cells. Qed.
+Print Assumptions C13_range_shows_cells.
+
+Theorem C13_sheet_of_coherent : forall fs, pairwise_disjoint fs -> coherent (sheet_of fs).
+Proof. exact sheet_of_coherent. Qed.
+Print Assumptions C13_sheet_of_coherent.
 
 (* ---- the whole clause for operators: the formula =l o r entered over an
    h x w target (no scalar operand is an error).  The member stamped (i, j)
